@@ -6,9 +6,24 @@ NULL = 0xFFFFFFFF
 ANDROID_NS = "http://schemas.android.com/apk/res/android"
 
 
+def mutf8_bytes(s):
+    """modified UTF-8 as aapt2 writes it into UTF-8 pools: supplementary characters as a surrogate pair of two 3-byte sequences"""
+    raw = s.encode("utf-16-le", "surrogatepass")
+    out = bytearray()
+    for k in range(0, len(raw), 2):
+        u = raw[k] | (raw[k + 1] << 8)
+        if u < 0x80:
+            out.append(u)
+        elif u < 0x800:
+            out += bytes([0xC0 | (u >> 6), 0x80 | (u & 0x3F)])
+        else:
+            out += bytes([0xE0 | (u >> 12), 0x80 | ((u >> 6) & 0x3F), 0x80 | (u & 0x3F)])
+    return bytes(out)
+
+
 class Pool:
-    def __init__(self, utf8):
-        self.utf8, self.strings, self.index = utf8, [], {}
+    def __init__(self, utf8, mutf8=False):
+        self.utf8, self.strings, self.index, self.mutf8 = utf8, [], {}, mutf8
 
     def add(self, s):
         if s is None:
@@ -29,7 +44,7 @@ class Pool:
         for s in self.strings:
             offs.append(len(data))
             if self.utf8:
-                raw = s.encode("utf-8", "surrogatepass")
+                raw = mutf8_bytes(s) if self.mutf8 else s.encode("utf-8", "surrogatepass")
                 u16len = len(s.encode("utf-16-le", "surrogatepass")) // 2
                 data += self._len8(u16len) + self._len8(len(raw)) + raw + b"\0"
             else:
@@ -46,8 +61,9 @@ class Pool:
 
 
 class Elem:
-    def __init__(self, name, ns=None, attrs=(), children=(), text=None):
-        self.name, self.ns, self.attrs, self.children, self.text = name, ns, list(attrs), list(children), text
+    def __init__(self, name, ns=None, attrs=(), children=(), text=None, tail=None):
+        """text: character data before the first child; tail: character data directly behind this element (in its parent)"""
+        self.name, self.ns, self.attrs, self.children, self.text, self.tail = name, ns, list(attrs), list(children), text, tail
 
 
 class Attr:
@@ -61,9 +77,10 @@ TYPES = {"str": 3, "int": 0x10, "hex": 0x11, "bool": 0x12, "ref": 1, "dimen": 5,
          "fraction": 6, "argb8": 0x1C, "rgb8": 0x1D, "argb4": 0x1E, "rgb4": 0x1F}
 
 
-def write(root, namespaces=(("android", ANDROID_NS),), utf8=False, attr_size=20):
-    """-> bytes of the binary XML document"""
-    pool = Pool(utf8)
+def write(root, namespaces=(("android", ANDROID_NS),), utf8=False, attr_size=20, mutf8=False, raw_values=True):
+    """-> bytes of the binary XML document.  mutf8: UTF-8 pool in aapt2's modified UTF-8; raw_values=False: string attributes carry
+    their string only in the typed value (rawValue = 0xFFFFFFFF)"""
+    pool = Pool(utf8, mutf8)
     # attribute names with resource ids must come first in the pool (resource map is index-aligned)
     res_ids = []
 
@@ -89,8 +106,8 @@ def write(root, namespaces=(("android", ANDROID_NS),), utf8=False, attr_size=20)
         for a in e.attrs:
             kind, v = a.value
             if kind == "str":
-                raw = pool.add(v)
-                data = raw
+                data = pool.add(v)
+                raw = data if raw_values else NULL
             else:
                 raw = NULL
                 data = {"bool": lambda: 0xFFFFFFFF if v else 0}.get(kind, lambda: v & 0xFFFFFFFF)()
@@ -102,6 +119,8 @@ def write(root, namespaces=(("android", ANDROID_NS),), utf8=False, attr_size=20)
         for c in e.children:
             emit(c)
         body += node_hdr(0x0103, struct.pack("<II", pool.add(e.ns), pool.add(e.name)))
+        if getattr(e, "tail", None) is not None:
+            body += node_hdr(0x0104, struct.pack("<IHBBI", pool.add(e.tail), 8, 0, 0, 0))
     emit(root)
     for prefix, uri in reversed(list(namespaces)):
         body += node_hdr(0x0101, struct.pack("<II", pool.add(prefix), pool.add(uri)))
